@@ -14,7 +14,7 @@ use write_fonts::{
             hvar::Hvar,
             variations::{DeltaSetIndex, DeltaSetIndexMap, EntryFormat, ItemVariationStore},
         },
-        FontRef, ReadError, TopLevelTable,
+        FontData, FontRead, FontRef, ReadError, TopLevelTable,
     },
     types::Offset32,
     FontBuilder,
@@ -98,8 +98,19 @@ pub(crate) fn serialize_index_maps(
             continue;
         }
 
+        // the source map is only the receiver of `subset` (nothing is read from it): a source without
+        // an advance map (implicit glyph id mapping) still needs its new map to be written
+        let fallback;
+        let source = match index_map.as_ref() {
+            Some(m) => m,
+            None => {
+                fallback = DeltaSetIndexMap::read(FontData::new(&[0, 0, 0, 0]))
+                    .map_err(|_| SerializeErrorFlags::SERIALIZE_ERROR_OTHER)?;
+                &fallback
+            }
+        };
         Offset32::serialize_subset(
-            index_map.as_ref().unwrap(),
+            source,
             s,
             plan,
             &index_map_subset_plan.to_serialize_plan(),
